@@ -831,7 +831,7 @@ static rc::Gen<ConnCase> genConn() {
 }
 
 int main(int argc, char **argv) {
-  add_check<PktCase>("pkt_histories", 500, 100, genPkt, run_pkt);
-  add_check<ConnCase>("conn_histories", 700, 100, genConn, run_conn);
+  add_check<PktCase>("pkt_histories", 450, 100, genPkt, run_pkt);
+  add_check<ConnCase>("conn_histories", 650, 100, genConn, run_conn);
   return driver_main(argc, argv);
 }
